@@ -178,7 +178,12 @@ func sweep(c *Ctx, layers []sweepLayer, perCase func(sc *sweepCase) bool, each f
 	for _, L := range layers {
 		var sc *sweepCase
 		body := func(x *X) {
-			cs := genCase(x, L.O)
+			var cs *Case
+			if L.O.Scale {
+				cs = genScaleCase(x, L.O)
+			} else {
+				cs = genCase(x, L.O)
+			}
 			sc = &sweepCase{C: cs, Layer: L.Name}
 		}
 		st := Explore(body, ExploreOpts{Bound: L.Bound, ShardDepth: 6, Shard: c.Shard, NShards: c.NShards}, func(x *X) {
